@@ -476,10 +476,7 @@ func TestVerifC03RealmConn(t *testing.T) {
 			src := vfC03UDPAddr(rng, 100+canaryNo)
 			r.Canary(entry, r.SeqID(id), map[string]any{"attempt": aid, "from": src.String()}, func() error {
 				typ := []PunchPacketType{PunchPacketHello, PunchPacketAck}[canaryNo%2]
-				pkt, err := EncodePunchPacket(typ, metas[aid])
-				if err != nil {
-					return err
-				}
+				pkt := vfC03PunchPacket(rng, typ, metas[aid], rng.Intn(300))
 				if got, _, err := feed(vfExact(pkt), src, 1500); err == nil {
 					return fmt.Errorf("a registered punch packet was returned to the reader (%d bytes)", len(got))
 				}
